@@ -12,13 +12,13 @@ PROPERTY = 'C03'
 RULE = ("Under overflow='wrap': stored code must satisfy lo<=code<=hi AND code == ROUND(x) (mod 2^n_word) (two independent conditions; the model's OVERFLOW is not used); "
         "metamorphic: storing v+j*2^(n_word-n_frac), j in -3..3, stores the same code; register: add/sub/mul of two wrap operands into a wrap out_like of n_word bits "
         "equals (ka op kb) mod 2^n_word, for n_word<=52 and 64..256. Generated: exhaustive quarter-LSB grid over 3x range for n_word<=6; Hypothesis formats up to 52 bits with bases "
-        "at multiples of 2^n_word +- small on both sides; n_word 64..256 with Python-int inputs up to 4*n_word bits (raw and integer-value mode). "
+        "at multiples of 2^n_word +- small on both sides; n_word 64..256 with Python-int inputs up to 4*n_word bits (raw and integer-value mode; value mode with n_frac in {0,1,3,n_word//2,-1,-4,-8}, negative n_frac rounding exactly). "
         "Non-trivial = ROUND(x) outside [lo,hi]; distinct = distinct (format, rounding, route, input).")
 ASSUMPTIONS = ['core-domain inputs are exact doubles; wide formats use Python-int inputs only (float inputs into >=64-bit words are outside the statement)',
                'ROUND of the reference model is trusted (cross-checked relationally by C05)']
 EXHAUSTIVE = False    # the whole quantifier is not enumerated; complete sub-domains are listed in EXHAUSTIVE_SUBDOMAINS
 EXHAUSTIVE_SUBDOMAINS = {'quick': ['quarter-LSB grid over 3x range, n_word<=6, all n_frac, 5 roundings, wrap'], 'thorough': ['same, n_word<=7']}
-REQUIRED_CLASSES = {'wrapped': 500, 'wide': 300, 'shift-invariance': 300, 'register': 300, 'resign': 500}
+REQUIRED_CLASSES = {'wrapped': 500, 'wide': 300, 'wide:nfrac<0': 100, 'shift-invariance': 300, 'register': 300, 'resign': 500}
 
 
 def wrap_ok(code, r, fmt):
@@ -102,8 +102,13 @@ def check_wide(ctx, case):
     route = case['route']
     F = C.Fxp()
     lo, hi = M.rng(s, w)
-    r = k_in if mode == 'raw' else k_in * (1 << f)
-    sig = 'wide/%s/%s' % (mode, route)
+    if mode == 'raw':
+        r = k_in
+    elif f >= 0:
+        r = k_in * (1 << f)
+    else:
+        r = M.ROUND(Fraction(k_in, 1 << -f), case.get('rounding', 'trunc'))   # negative n_frac: the low bits are rounded away, exactly
+    sig = 'wide/%s/%s%s' % (mode, route, '/nfrac<0' if f < 0 and mode != 'raw' else '')
     ctx.ev()
 
     def do():
@@ -296,7 +301,7 @@ def st_wide_case(draw):
     w = draw(st.one_of(st.sampled_from(WIDE_W), st.integers(64, 256)))
     s = draw(st.booleans())
     mode = draw(st.sampled_from(['raw', 'value']))
-    f = draw(st.sampled_from([0, 1, w // 2, w - 1, w])) if mode == 'raw' else draw(st.sampled_from([0, 0, 1, 3, w // 2]))
+    f = draw(st.sampled_from([0, 1, w // 2, w - 1, w])) if mode == 'raw' else draw(st.sampled_from([0, 0, 1, 3, w // 2, -1, -4, -8]))
     lo, hi = M.rng(s, w)
     m = 1 << w
     kind = draw(st.sampled_from(['edge', 'mod', 'rand', 'm64', 'inrange']))
@@ -310,7 +315,8 @@ def st_wide_case(draw):
         r = draw(st.sampled_from([1 << 63, 1 << 64, (1 << 63) - 1, (1 << 64) - 1, -(1 << 63), -(1 << 63) - 1, -(1 << 64)])) + draw(st.integers(-2, 2))
     else:
         r = draw(st.integers(lo, hi))
-    k = r if mode == 'raw' else r >> f   # value mode: integer value v, scaled code v*2^f
+    # value mode: integer value v, scaled code v*2^f (negative n_frac: low bits that decide the rounding are added)
+    k = r if mode == 'raw' else r >> f if f >= 0 else (r << -f) + draw(st.sampled_from([0, 0, 1, (1 << -f) // 2, (1 << -f) - 1]))
     return {'check': 'wide', 'fmt': [s, w, f], 'k': k, 'mode': mode, 'route': draw(st.sampled_from(['ctor', 'set_val', 'call'])),
             'rounding': draw(st.sampled_from(C.ROUNDINGS))}
 
@@ -319,8 +325,10 @@ def body_wide(ctx, case):
     fmt = tuple(case['fmt'])
     lo, hi = M.rng(fmt[0], fmt[1])
     k = int(case['k'])
-    r = k if case['mode'] == 'raw' else k << fmt[2]
+    r = k if case['mode'] == 'raw' else k << fmt[2] if fmt[2] >= 0 else k >> -fmt[2]
     ctx.cls('wide')
+    if fmt[2] < 0 and case['mode'] != 'raw':
+        ctx.cls('wide:nfrac<0')
     if r > hi or r < lo:
         ctx.cls('wrapped')
         ctx.nontrivial(('wide', fmt, case['mode'], case['route'], k))
